@@ -144,6 +144,13 @@ def check(P: Project, R: Report) -> None:
                     R.ob("R3", "model_dump path passes exclude_none=True", _true(kwarg(arg0, "exclude_none")), f"{rel}:{c.lineno}", ast.unparse(arg0)[:60])
                 else:
                     kind = "dumps(obj)"
+                    if arg0 is not None and ast.unparse(arg0) == msg:
+                        # the message itself serialised as an object: only after `isinstance(message, str)` has said no — a
+                        # pre-serialised text (any str, subclasses included) that gets here is written as a JSON *string*
+                        # holding the document instead of the document
+                        R.ob("R2", "a pre-serialised string never reaches the object serialiser", _excludes_text(lits, msg) or any(f"isinstance({msg}, {t_})" in lits or f"type({msg}) is {t_}" in lits for t_ in ("dict", "list", "tuple", "int", "float", "bool")), f"{rel}:{c.lineno}",
+                             f"`{ast.unparse(c)[:50]}` is reached under {sorted(l[:40] for l in lits if msg in l)[:4]}: no `isinstance({msg}, str)` test has excluded text on this path (an exact-type test `type({msg}) is str` lets an instance of a str subclass through), so such a message is written as one JSON string wrapping the document — the line decodes, but not to the message",
+                             sample=f"R2 json.dumps({msg}) only where isinstance({msg}, str) is false")
             elif callee_def and "'model_dump_json'" in callee_def and indent is None:
                 kind = "model_dump_json"
                 R.ob("R3", "model_dump_json path passes exclude_none=True", _true(kwarg(c, "exclude_none")), f"{rel}:{c.lineno}", ast.unparse(c)[:60])
@@ -281,6 +288,21 @@ def check(P: Project, R: Report) -> None:
     R.ob("R5", "the caller's write stream is the only sending handle on the outgoing stream", not kept, f"{kept[0][0].module.rel}:{kept[0][1].lineno}" if kept else wr.where,
          (f"`{ast.unparse(kept[0][1])}` in {kept[0][0].qual} makes a second sending handle that is not closed with the caller's: after the caller closes the write stream the writer loop never sees the end of the stream and stdin stays open" if kept else ""),
          sample=f"R5 no lasting clone of self.{out_send} in {n_fn} functions")
+
+
+def _excludes_text(lits, msg: str) -> bool:
+    """some literal of the path says `not isinstance(<msg>, str)` — `str` alone or among the classes of a tuple"""
+    for l in lits:
+        try:
+            n = ast.parse(l, mode="eval").body
+        except SyntaxError:
+            continue
+        if isinstance(n, ast.UnaryOp) and isinstance(n.op, ast.Not) and isinstance(n.operand, ast.Call) and call_name(n.operand) == "isinstance" and len(n.operand.args) == 2 and ast.unparse(n.operand.args[0]) == msg:
+            ci = n.operand.args[1]
+            names = [ci] if isinstance(ci, ast.Name) else (list(ci.elts) if isinstance(ci, ast.Tuple) else [])
+            if any(isinstance(x, ast.Name) and x.id == "str" for x in names):
+                return True
+    return False
 
 
 def _utf8(call: ast.Call) -> bool:
